@@ -5,15 +5,20 @@ package main
 import (
 	"bytes"
 	"fmt"
+	"math/big"
 	"reflect"
 	"sort"
 	"strings"
 
+	"github.com/icon-project/goloop/common"
 	"github.com/icon-project/goloop/common/crypto"
 	"github.com/icon-project/goloop/common/db"
 	"github.com/icon-project/goloop/common/merkle"
 	"github.com/icon-project/goloop/common/trie"
 	"github.com/icon-project/goloop/common/trie/ompt"
+	"github.com/icon-project/goloop/module"
+	"github.com/icon-project/goloop/service/scoreapi"
+	"github.com/icon-project/goloop/service/state"
 )
 
 // ---- object values: a trie value is either inline data (0x02 ++ bytes) or a reference
@@ -173,71 +178,124 @@ func c20ItemBytes(it []byte) []byte {
 	return it[h:]
 }
 
-// c20RefsObj: what the requester of a trie node of an object-valued trie asks for: the hash-link
-// children (MerkleTrie bucket), then the blob referenced by the node's own value (branch value /
-// leaf value; BytesByHash bucket). nBlob = number of trailing blob references.
-func c20RefsObj(payload []byte) (refs [][]byte, nBlob int, ok bool) {
-	refs, ok = c20Refs(payload)
-	if !ok {
-		return nil, 0, false
-	}
-	items, _ := c20Items(payload)
-	switch len(items) {
-	case 17:
-		if h := c20ValRef(c20ItemBytes(items[16])); h != nil {
-			refs = append(refs, h)
-			nBlob++
-		}
-	case 2:
-		hdr := c20ItemBytes(items[0])
-		if len(hdr) > 0 && hdr[0]&0x20 != 0 {
-			if h := c20ValRef(c20ItemBytes(items[1])); h != nil {
-				refs = append(refs, h)
-				nBlob++
-			}
-		}
-	}
-	return refs, nBlob, true
-}
-
 type c20Ref struct {
 	bkt db.BucketID
 	key string
 }
 
+// trie flavours of a case
+const (
+	c20ModeBytes = 0 // bytes-valued trie
+	c20ModeObj   = 1 // harness object values referring to one blob
+	c20ModeWS    = 2 // real world state: account snapshots (service/state) as values
+)
+
+// c20ValueOf returns the value carried by a trie node payload itself (leaf value / branch
+// value), nil if none.
+func c20ValueOf(payload []byte) []byte {
+	items, ok := c20Items(payload)
+	if !ok {
+		return nil
+	}
+	switch len(items) {
+	case 17:
+		return c20ItemBytes(items[16])
+	case 2:
+		hdr := c20ItemBytes(items[0])
+		if len(hdr) > 0 && hdr[0]&0x20 != 0 {
+			return c20ItemBytes(items[1])
+		}
+	}
+	return nil
+}
+
+func c20Uint(b []byte) int {
+	n := 0
+	for _, x := range b {
+		n = n<<8 | int(x)
+	}
+	return n
+}
+
+// c20AcctRefs: what an account snapshot (RLP list: version, balance, isContract, storeHash,
+// state, owner, apiInfo, curContract, nextContract [, flag [, objGraph] ...]) refers to, in the
+// order accountSnapshotImpl.Resolve asks: API info blob (version>=2), storage trie root, code of
+// the current contract, code of the next contract, object graph blob. Independent of the repo's
+// codec. ok=false: not an account snapshot.
+func c20AcctRefs(val []byte) (refs []c20Ref, ok bool) {
+	it, ok := c20Items(val)
+	if !ok || len(it) < 9 {
+		return nil, false
+	}
+	str := func(x []byte) []byte { // content of a string item; nil for lists / null
+		if len(x) == 0 || x[0] >= 0xc0 {
+			return nil
+		}
+		return c20ItemBytes(x)
+	}
+	if c20Uint(str(it[0])) >= 2 {
+		if h := str(it[6]); len(h) > 0 {
+			refs = append(refs, c20Ref{db.BytesByHash, string(h)})
+		}
+	}
+	if h := str(it[3]); len(h) > 0 {
+		refs = append(refs, c20Ref{db.MerkleTrie, string(h)})
+	}
+	for _, ci := range []int{7, 8} {
+		if ct, isList := c20Items(it[ci]); isList && len(ct) >= 6 {
+			if h := str(ct[5]); len(h) > 0 {
+				refs = append(refs, c20Ref{db.BytesByHash, string(h)})
+			}
+		}
+	}
+	if len(it) >= 11 && c20Uint(str(it[9]))&1 != 0 {
+		if og, isList := c20Items(it[10]); isList && len(og) >= 2 {
+			if h := str(og[1]); len(h) > 0 {
+				refs = append(refs, c20Ref{db.BytesByHash, string(h)})
+			}
+		}
+	}
+	return refs, true
+}
+
 // c20RefsFor: references asked for by the requester registered for bucket bkt after it got
 // payload (harness's own parser; a blob requester asks for nothing).
-func c20RefsFor(bkt db.BucketID, payload []byte, obj bool) ([]c20Ref, bool) {
+func c20RefsFor(bkt db.BucketID, payload []byte, mode int) ([]c20Ref, bool) {
 	if bkt != db.MerkleTrie {
 		return nil, true
 	}
-	var hs [][]byte
-	nBlob := 0
-	var ok bool
-	if obj {
-		hs, nBlob, ok = c20RefsObj(payload)
-	} else {
-		hs, ok = c20Refs(payload)
-	}
+	hs, ok := c20Refs(payload)
 	if !ok {
 		return nil, false
 	}
-	out := make([]c20Ref, len(hs))
-	for i, h := range hs {
-		b := db.MerkleTrie
-		if i >= len(hs)-nBlob {
-			b = db.BytesByHash
+	out := make([]c20Ref, 0, len(hs)+1)
+	for _, h := range hs {
+		out = append(out, c20Ref{db.MerkleTrie, string(h)})
+	}
+	switch mode {
+	case c20ModeObj:
+		if h := c20ValRef(c20ValueOf(payload)); h != nil {
+			out = append(out, c20Ref{db.BytesByHash, string(h)})
 		}
-		out[i] = c20Ref{b, string(h)}
+	case c20ModeWS:
+		// account snapshots are RLP lists; storage values of the generated states never start
+		// with a list tag
+		if v := c20ValueOf(payload); len(v) > 0 && v[0] >= 0xc0 {
+			ar, ok := c20AcctRefs(v)
+			if !ok {
+				return nil, false
+			}
+			out = append(out, ar...)
+		}
 	}
 	return out, true
 }
 
 // c20RefsWire: the references asked for by the requesters of buckets bkts, in serving order.
-func c20RefsWire(payload []byte, obj bool, bkts []db.BucketID) string {
+func c20RefsWire(payload []byte, mode int, bkts []db.BucketID) string {
 	var ss []string
 	for _, b := range bkts {
-		refs, ok := c20RefsFor(b, payload, obj)
+		refs, ok := c20RefsFor(b, payload, mode)
 		if !ok {
 			return "X"
 		}
@@ -299,6 +357,7 @@ type c20Source struct {
 	trie  map[string][]byte // hash -> payload: every node of the source trie (MerkleTrie bucket)
 	blobs map[string][]byte // hash -> blob: every blob referenced by a value (BytesByHash bucket)
 	root  []byte
+	accts []*c20Acct // world-state sources
 }
 
 // payload of key h in either bucket (a key present in both has the same bytes: one hasher)
@@ -361,6 +420,161 @@ func c20BuildSource(pairs map[string][]byte, obj bool, blobs map[string][]byte) 
 	return s
 }
 
+// ---- world-state sources: real account snapshots of service/state as trie values ----
+
+// contract stages of an account
+var c20Stages = []string{"eoa", "cur", "curnext", "next", "rejected", "currej"}
+
+type c20Acct struct {
+	id     []byte
+	stage  string // eoa | cur (accepted) | curnext (accepted + pending update) | next (first deployment pending) | rejected (first deployment rejected) | currej (accepted + rejected update)
+	bal    int64
+	codeA  []byte // first deployed code
+	codeB  []byte // second deployed code (curnext, currej)
+	graph  []byte // object graph of the current contract (stages with a current contract)
+	api    bool   // account version 2 with API info kept as a blob
+	kv     [][2][]byte
+	codeID []byte // filled by the builder: CodeID of the current contract
+}
+
+func c20APIInfo(a *c20Acct) *scoreapi.Info {
+	return scoreapi.NewInfo([]*scoreapi.Method{{
+		Type: scoreapi.Function, Name: fmt.Sprintf("m%x", a.id), Flags: scoreapi.FlagExternal,
+		Inputs: []scoreapi.Parameter{{Name: "x", Type: scoreapi.Integer}},
+	}})
+}
+
+var c20Owner = common.MustNewAddressFromString("hx0000000000000000000000000000000000000001")
+
+// c20BuildWorld builds the trusted world state with the real service/state API and records what
+// its flush writes into each bucket.
+func c20BuildWorld(accts []*c20Acct) *c20Source {
+	rec := &c20RecDB{Database: db.NewMapDB(), sets: map[db.BucketID]map[string][]byte{}}
+	ws := state.NewWorldState(rec, nil, nil, nil, nil)
+	must := func(err error) {
+		if err != nil {
+			panic(err)
+		}
+	}
+	for _, a := range accts {
+		as := ws.GetAccountState(a.id)
+		as.SetBalance(big.NewInt(a.bal))
+		for _, kv := range a.kv {
+			_, err := as.SetValue(kv[0], kv[1])
+			must(err)
+		}
+		if a.stage == "eoa" {
+			continue
+		}
+		if !as.InitContractAccount(c20Owner) {
+			panic("InitContractAccount")
+		}
+		if a.api {
+			must(as.MigrateForRevision(module.UseCompactAPIInfo))
+			as.SetAPIInfo(c20APIInfo(a))
+		}
+		tx1 := crypto.SHA3Sum256(append([]byte("deploy1"), a.id...))
+		tx2 := crypto.SHA3Sum256(append([]byte("deploy2"), a.id...))
+		_, err := as.DeployContract(a.codeA, state.PythonEE, state.CTAppZip, nil, tx1)
+		must(err)
+		switch a.stage {
+		case "cur", "curnext", "currej":
+			must(as.AcceptContract(tx1, crypto.SHA3Sum256(tx1)))
+			if a.stage != "cur" {
+				_, err := as.DeployContract(a.codeB, state.PythonEE, state.CTAppZip, nil, tx2)
+				must(err)
+				if a.stage == "currej" {
+					must(as.RejectContract(tx2, crypto.SHA3Sum256(tx2)))
+				}
+			}
+			a.codeID = as.Contract().CodeID()
+			if a.graph != nil {
+				must(as.SetObjGraph(a.codeID, true, 7, a.graph))
+			}
+		case "rejected":
+			must(as.RejectContract(tx1, crypto.SHA3Sum256(tx1)))
+		case "next":
+		default:
+			panic("stage " + a.stage)
+		}
+	}
+	wss := ws.GetSnapshot()
+	must(wss.Flush())
+	s := &c20Source{trie: map[string][]byte{}, blobs: map[string][]byte{}, root: wss.StateHash(), accts: accts}
+	for k, v := range rec.sets[db.MerkleTrie] {
+		s.trie[k] = v
+	}
+	for k, v := range rec.sets[db.BytesByHash] {
+		s.blobs[k] = v
+	}
+	return s
+}
+
+func c20GenWorld(g *Gen) {
+	n := g.Pick(1, 2, 3, 4, 6, 9)
+	if g.Tier == "thorough" && g.Intn(6) == 0 {
+		n = 20 + g.Intn(40)
+	}
+	var codes [][]byte
+	code := func() []byte {
+		if len(codes) > 0 && g.Intn(6) == 0 {
+			return codes[g.Intn(len(codes))] // the same code deployed twice: one blob, two requesters
+		}
+		c := g.Bytes(g.Pick(1, 5, 20, 40, 100))
+		codes = append(codes, c)
+		return c
+	}
+	var accts []*c20Acct
+	seen := map[string]bool{}
+	off := g.Intn(len(c20Stages))
+	for i := 0; i < n; i++ {
+		a := &c20Acct{id: g.Bytes(g.Pick(1, 4, 20, 21)), bal: int64(g.Intn(1 << 20))}
+		if seen[string(a.id)] {
+			continue
+		}
+		seen[string(a.id)] = true
+		a.stage = c20Stages[(off+i)%len(c20Stages)] // every stage appears once n >= 6, all over a run
+		if g.Intn(4) == 0 {
+			a.stage = c20Stages[g.Intn(len(c20Stages))]
+		}
+		if a.stage != "eoa" {
+			a.codeA = code()
+			if a.stage == "curnext" || a.stage == "currej" {
+				a.codeB = code()
+			}
+			if a.stage != "next" && a.stage != "rejected" && g.Intn(3) == 0 {
+				a.graph = g.Bytes(g.Pick(1, 10, 50))
+			}
+			a.api = g.Intn(3) == 0
+		}
+		for j, nkv := 0, g.Pick(0, 0, 1, 2, 4, 9); j < nkv; j++ {
+			v := g.Bytes(g.Pick(1, 2, 20, 33, 60))
+			v[0] &= 0x7f // never looks like an RLP list (account snapshots do)
+			a.kv = append(a.kv, [2][]byte{c20Key(g), v})
+		}
+		accts = append(accts, a)
+	}
+	opt := func(b []byte) string {
+		if b == nil {
+			return "-"
+		}
+		return hx(b)
+	}
+	for _, a := range accts {
+		api := 0
+		if a.api {
+			api = 1
+		}
+		g.Emit("acct %s %s %d %s %s %s %d", hx(a.id), a.stage, a.bal, opt(a.codeA), opt(a.codeB), opt(a.graph), api)
+		for _, kv := range a.kv {
+			g.Emit("stor %s %s %s", hx(a.id), hx(kv[0]), hx(kv[1]))
+		}
+	}
+	src := c20BuildWorld(accts)
+	g.Emit("begin-ws %s", hx(src.root))
+	c20Deliver(g, src, c20ModeWS, nil)
+}
+
 // ---- generator ----
 
 func c20Key(g *Gen) []byte {
@@ -378,7 +592,7 @@ func c20Key(g *Gen) []byte {
 // It only decides which ops are written; expectations come from the model and the oracles.
 type c20Sim struct {
 	src    *c20Source
-	obj    bool
+	mode   int
 	order  []string                 // outstanding keys
 	pend   map[string][]db.BucketID // key -> requesting buckets
 	stored map[c20Ref]bool
@@ -408,7 +622,7 @@ func (m *c20Sim) deliver(h string) {
 	p := m.src.payload(h)
 	for _, b := range bkts {
 		m.stored[c20Ref{b, h}] = true
-		refs, _ := c20RefsFor(b, p, m.obj)
+		refs, _ := c20RefsFor(b, p, m.mode)
 		for _, r := range refs {
 			if r.key != h {
 				m.request(r)
@@ -497,7 +711,7 @@ func c20AddDual(g *Gen, pairs map[string][]byte, blobs map[string][]byte, blobOr
 	*blobOrder = append(*blobOrder, L)
 	d := &c20Dual{key: K, parents: map[string]bool{}, referrers: map[string]bool{}}
 	for h, p := range src.trie {
-		refs, _ := c20RefsFor(db.MerkleTrie, p, true)
+		refs, _ := c20RefsFor(db.MerkleTrie, p, c20ModeObj)
 		for _, r := range refs {
 			if r.key == K && r.bkt == db.MerkleTrie {
 				d.parents[h] = true
@@ -516,6 +730,11 @@ func c20AddDual(g *Gen, pairs map[string][]byte, blobs map[string][]byte, blobOr
 func c20Gen(g *Gen) {
 	for c := 0; c < g.N; c++ {
 		g.Emit("reset")
+		if c%5 == 3 {
+			// a real world state: accounts in every contract stage, storage tries, code blobs
+			c20GenWorld(g)
+			continue
+		}
 		obj := g.Intn(5) < 2 // object-valued trie whose values may refer to blobs (as accounts refer to storage/code)
 		np := g.Pick(0, 1, 2, 3, 5, 8, 13, 30, 60)
 		if g.Tier == "thorough" && g.Intn(4) == 0 {
@@ -588,137 +807,149 @@ func c20Gen(g *Gen) {
 		} else {
 			g.Emit("begin %s", hx(src.root))
 		}
-		sim := &c20Sim{src: src, obj: obj, pend: map[string][]db.BucketID{}, stored: map[c20Ref]bool{}, done: map[string]bool{}}
-		if src.root != nil {
-			sim.request(c20Ref{db.MerkleTrie, string(src.root)})
+		mode := c20ModeBytes
+		if obj {
+			mode = c20ModeObj
 		}
-		// the bucket a payload is delivered for only selects the hasher; mostly the bucket that
-		// asked, for a key asked by both either one, sometimes the other one (service/sync
-		// delivers everything as BytesByHash)
-		bothOf := func(bk []db.BucketID) (has0, has1 bool) {
-			for _, b := range bk {
-				if b == db.MerkleTrie {
-					has0 = true
-				} else {
-					has1 = true
-				}
-			}
-			return
-		}
-		emitData := func(h string) {
-			p := src.payload(h)
-			has0, has1 := bothOf(sim.pend[h])
-			var asBlob bool
-			switch {
-			case !has0 && !has1:
-				_, asBlob = src.blobs[h]
-				if _, both := src.trie[h]; both && asBlob {
-					asBlob = g.Intn(2) == 0
-				}
-			case has0 && has1:
-				asBlob = g.Intn(2) == 0
-			default:
-				asBlob = has1
-			}
-			if g.Intn(8) == 0 {
-				asBlob = !asBlob
-			}
-			if asBlob {
-				g.Emit("datab %s", hx(p))
+		c20Deliver(g, src, mode, dual)
+	}
+}
+
+// c20Deliver writes a delivery history for the source: requested payloads in random order,
+// interleaved with forged, premature/duplicate and altered ones; may stop early.
+func c20Deliver(g *Gen, src *c20Source, mode int, dual *c20Dual) {
+	sim := &c20Sim{src: src, mode: mode, pend: map[string][]db.BucketID{}, stored: map[c20Ref]bool{}, done: map[string]bool{}}
+	if src.root != nil {
+		sim.request(c20Ref{db.MerkleTrie, string(src.root)})
+	}
+	// the bucket a payload is delivered for only selects the hasher; mostly the bucket that
+	// asked, for a key asked by both either one, sometimes the other one (service/sync
+	// delivers everything as BytesByHash)
+	bothOf := func(bk []db.BucketID) (has0, has1 bool) {
+		for _, b := range bk {
+			if b == db.MerkleTrie {
+				has0 = true
 			} else {
-				g.Emit("data %s", hx(p))
+				has1 = true
 			}
 		}
-		anyDone := func(m map[string]bool) bool {
-			for h := range m {
-				if sim.done[h] {
-					return true
-				}
+		return
+	}
+	emitData := func(h string) {
+		p := src.payload(h)
+		has0, has1 := bothOf(sim.pend[h])
+		var asBlob bool
+		switch {
+		case !has0 && !has1:
+			_, asBlob = src.blobs[h]
+			if _, both := src.trie[h]; both && asBlob {
+				asBlob = g.Intn(2) == 0
 			}
+		case has0 && has1:
+			asBlob = g.Intn(2) == 0
+		default:
+			asBlob = has1
+		}
+		if g.Intn(8) == 0 {
+			asBlob = !asBlob
+		}
+		if asBlob {
+			g.Emit("datab %s", hx(p))
+		} else {
+			g.Emit("data %s", hx(p))
+		}
+	}
+	anyDone := func(m map[string]bool) bool {
+		for h := range m {
+			if sim.done[h] {
+				return true
+			}
+		}
+		return false
+	}
+	held := func(h string) bool {
+		if dual == nil {
 			return false
 		}
-		held := func(h string) bool {
-			if dual == nil {
+		if h == dual.key {
+			if !dual.hold {
 				return false
 			}
-			if h == dual.key {
-				if !dual.hold {
-					return false
-				}
-				has0, has1 := bothOf(sim.pend[h])
-				return !(has0 && has1)
-			}
-			if dual.blobFirst {
-				return dual.parents[h] && !anyDone(dual.referrers)
-			}
-			return dual.referrers[h] && !anyDone(dual.parents)
+			has0, has1 := bothOf(sim.pend[h])
+			return !(has0 && has1)
 		}
-		allHashes := make([]string, 0, src.size())
-		for h := range src.trie {
+		if dual.blobFirst {
+			return dual.parents[h] && !anyDone(dual.referrers)
+		}
+		return dual.referrers[h] && !anyDone(dual.parents)
+	}
+	allHashes := make([]string, 0, src.size())
+	for h := range src.trie {
+		allHashes = append(allHashes, h)
+	}
+	for h := range src.blobs {
+		if _, both := src.trie[h]; !both {
 			allHashes = append(allHashes, h)
 		}
-		for h := range src.blobs {
-			if _, both := src.trie[h]; !both {
-				allHashes = append(allHashes, h)
-			}
-		}
-		sort.Strings(allHashes)
-		stopEarly := g.Intn(6) == 0
-		for len(sim.order) > 0 {
-			if stopEarly && g.Intn(4) == 0 {
-				break
-			}
-			switch g.Intn(10) {
-			case 0: // forged / arbitrary payload
-				if g.Intn(2) == 0 {
-					g.Emit("data %s", hx(g.Bytes(g.Pick(1, 5, 33, 60))))
-				} else {
-					g.Emit("datab %s", hx(g.Bytes(g.Pick(1, 5, 33, 60))))
-				}
-				continue
-			case 1: // genuine node that is not (or no longer) requested: duplicate or premature
-				if len(allHashes) > 0 {
-					h := allHashes[g.Intn(len(allHashes))]
-					if len(sim.pend[h]) == 0 {
-						emitData(h)
-					}
-				}
-				continue
-			case 2: // a requested node with one byte altered
-				h := sim.order[g.Intn(len(sim.order))]
-				p := append([]byte{}, src.payload(h)...)
-				p[g.Intn(len(p))] ^= byte(1 << uint(g.Intn(8)))
-				g.Emit("data %s", hx(p))
-				continue
-			}
-			cands := make([]string, 0, len(sim.order))
-			for _, h := range sim.order {
-				if !held(h) {
-					cands = append(cands, h)
-				}
-			}
-			if len(cands) == 0 {
-				cands = sim.order
-			}
-			i := g.Intn(len(cands))
-			if g.Intn(3) == 0 {
-				i = 0
-			}
-			h := cands[i]
-			emitData(h)
-			sim.deliver(h)
-			if dual != nil && h == dual.key && dual.twice {
-				emitData(h) // the same payload once more: nobody asks any longer
-			}
-		}
-		g.Emit("finish")
 	}
+	sort.Strings(allHashes)
+	stopEarly := g.Intn(6) == 0
+	for len(sim.order) > 0 {
+		if stopEarly && g.Intn(4) == 0 {
+			break
+		}
+		switch g.Intn(10) {
+		case 0: // forged / arbitrary payload
+			if g.Intn(2) == 0 {
+				g.Emit("data %s", hx(g.Bytes(g.Pick(1, 5, 33, 60))))
+			} else {
+				g.Emit("datab %s", hx(g.Bytes(g.Pick(1, 5, 33, 60))))
+			}
+			continue
+		case 1: // genuine node that is not (or no longer) requested: duplicate or premature
+			if len(allHashes) > 0 {
+				h := allHashes[g.Intn(len(allHashes))]
+				if len(sim.pend[h]) == 0 {
+					emitData(h)
+				}
+			}
+			continue
+		case 2: // a requested node with one byte altered
+			h := sim.order[g.Intn(len(sim.order))]
+			p := append([]byte{}, src.payload(h)...)
+			p[g.Intn(len(p))] ^= byte(1 << uint(g.Intn(8)))
+			g.Emit("data %s", hx(p))
+			continue
+		}
+		cands := make([]string, 0, len(sim.order))
+		for _, h := range sim.order {
+			if !held(h) {
+				cands = append(cands, h)
+			}
+		}
+		if len(cands) == 0 {
+			cands = sim.order
+		}
+		i := g.Intn(len(cands))
+		if g.Intn(3) == 0 {
+			i = 0
+		}
+		h := cands[i]
+		emitData(h)
+		sim.deliver(h)
+		if dual != nil && h == dual.key && dual.twice {
+			emitData(h) // the same payload once more: nobody asks any longer
+		}
+	}
+	g.Emit("finish")
 }
 
 // ---- implementation runner ----
 
 type c20Runner struct {
 	obj     bool
+	mode    int
+	accts   []*c20Acct
 	blobs   map[string][]byte
 	pairs   map[string][]byte
 	src     *c20Source
@@ -765,6 +996,51 @@ func (r *c20Runner) Step(t []string, o *Oracle) string {
 		b := unhx(t[1])
 		r.blobs[string(crypto.SHA3Sum256(b))] = b
 		return "ok"
+	case len(t) == 8 && t[0] == "acct" && !r.started:
+		a := &c20Acct{id: unhx(t[1]), stage: t[2]}
+		fmt.Sscan(t[3], &a.bal)
+		opt := func(x string) []byte {
+			if x == "-" {
+				return nil
+			}
+			return unhx(x)
+		}
+		a.codeA, a.codeB, a.graph, a.api = opt(t[4]), opt(t[5]), opt(t[6]), t[7] == "1"
+		r.accts = append(r.accts, a)
+		return "ok"
+	case len(t) == 4 && t[0] == "stor" && !r.started:
+		for _, a := range r.accts {
+			if bytes.Equal(a.id, unhx(t[1])) {
+				a.kv = append(a.kv, [2][]byte{unhx(t[2]), unhx(t[3])})
+			}
+		}
+		return "ok"
+	case len(t) == 2 && t[0] == "begin-ws" && !r.started:
+		r.started = true
+		r.served = map[string]int{}
+		r.obj, r.mode = true, c20ModeWS // both buckets are legitimate destinations
+		r.src = c20BuildWorld(r.accts)
+		r.dst = &c20RecDB{Database: db.NewMapDB(), sets: map[db.BucketID]map[string][]byte{}}
+		r.b = merkle.NewBuilder(r.dst)
+		if _, err := state.NewWorldSnapshotWithBuilder(r.b, r.src.root, nil, nil, nil); err != nil {
+			return "err"
+		}
+		o.Count("world-state")
+		for _, a := range r.accts {
+			o.Count("account-stage-" + a.stage)
+			if a.graph != nil {
+				o.Count("account-with-object-graph")
+			}
+			if a.api {
+				o.Count("account-with-api-info-blob")
+			}
+			if len(a.kv) > 0 {
+				o.Count("account-with-storage")
+			}
+		}
+		o.Count(fmt.Sprintf("source-nodes-%s", c20Bucket(r.src.size())))
+		o.Check(bytes.Equal(r.src.root, unhx(t[1])) || (len(r.src.root) == 0 && t[1] == "-"), "source-root-differs-from-generator", "root %x vs op %s", r.src.root, t[1])
+		return r.render("ok")
 	case len(t) == 2 && (t[0] == "begin" || t[0] == "begin-obj") && !r.started:
 		if r.pairs == nil {
 			r.pairs = map[string][]byte{}
@@ -772,6 +1048,9 @@ func (r *c20Runner) Step(t []string, o *Oracle) string {
 		r.started = true
 		r.served = map[string]int{}
 		r.obj = t[0] == "begin-obj"
+		if r.obj {
+			r.mode = c20ModeObj
+		}
 		r.src = c20BuildSource(r.pairs, r.obj, r.blobs)
 		r.dst = &c20RecDB{Database: db.NewMapDB(), sets: map[db.BucketID]map[string][]byte{}}
 		r.b = merkle.NewBuilder(r.dst)
@@ -839,7 +1118,7 @@ func (r *c20Runner) Step(t []string, o *Oracle) string {
 		}
 		// refs asked for by the served requesters, from the harness's own parser (cross-checks
 		// the model's decoder)
-		return r.render(tag) + " refs=" + c20RefsWire(v, r.obj, bkts)
+		return r.render(tag) + " refs=" + c20RefsWire(v, r.mode, bkts)
 	case len(t) == 1 && t[0] == "finish" && r.started:
 		un := r.b.UnresolvedCount()
 		if err := r.b.Flush(true); err != nil {
@@ -887,6 +1166,11 @@ func (r *c20Runner) Step(t []string, o *Oracle) string {
 		o.Check((un == 0) == complete, "unresolved-zero-iff-complete", "unresolved=%d but complete=%v (stored %d of %d (bucket,key) pairs of the trusted state)", un, complete, have, r.src.size())
 		if un == 0 {
 			// oracle 3: rebuilt state has the trusted root and contents (fresh trie over the raw destination db)
+			if r.mode == c20ModeWS {
+				r.checkWorld(o)
+				o.Count("finished-complete")
+				return fmt.Sprintf("complete %d", nstored)
+			}
 			got := map[string][]byte{}
 			if r.obj {
 				tr := ompt.NewImmutableForObject(r.dst.Database, r.src.root, c20ObjType)
@@ -928,6 +1212,60 @@ func (r *c20Runner) Step(t []string, o *Oracle) string {
 		return fmt.Sprintf("incomplete %d %d", un, nstored)
 	}
 	return "bad-op"
+}
+
+// checkWorld reopens the synced database as a world snapshot and reads back everything the
+// trusted state holds: balances, storage values, code of current and next contracts, object
+// graphs, API info.
+func (r *c20Runner) checkWorld(o *Oracle) {
+	wss := state.NewWorldSnapshot(r.dst.Database, r.src.root, nil, nil, nil)
+	for _, a := range r.accts {
+		ass := wss.GetAccountSnapshot(a.id)
+		if ass == nil {
+			o.Check(false, "rebuilt-account-missing", "account %x (%s) is not in the rebuilt state", a.id, a.stage)
+			continue
+		}
+		o.Check(ass.GetBalance().Int64() == a.bal && ass.IsContract() == (a.stage != "eoa"), "rebuilt-contents-differ", "account %x: balance %v contract %v", a.id, ass.GetBalance(), ass.IsContract())
+		last := map[string][]byte{}
+		for _, kv := range a.kv {
+			last[string(kv[0])] = kv[1]
+		}
+		for k, v := range last {
+			got, err := ass.GetValue([]byte(k))
+			o.Check(err == nil && bytes.Equal(got, v), "rebuilt-storage-differs", "account %x key %x: got %x err %v", a.id, k, got, err)
+		}
+		var cur, next []byte
+		switch a.stage {
+		case "cur":
+			cur = a.codeA
+		case "curnext", "currej":
+			cur, next = a.codeA, a.codeB
+		case "next", "rejected":
+			next = a.codeA
+		}
+		chk := func(name string, c state.ContractSnapshot, exp []byte) {
+			if exp == nil {
+				o.Check(c == nil, "rebuilt-contents-differ", "account %x has an unexpected %s contract", a.id, name)
+				return
+			}
+			if c == nil {
+				o.Check(false, "rebuilt-contents-differ", "account %x (%s) has no %s contract", a.id, a.stage, name)
+				return
+			}
+			code, err := c.Code()
+			o.Check(err == nil && bytes.Equal(code, exp), "rebuilt-state-misses-referenced-data", "sync finished but the code of the %s contract of account %x (stage %s) cannot be read: %v", name, a.id, a.stage, err)
+		}
+		chk("current", ass.Contract(), cur)
+		chk("next", ass.NextContract(), next)
+		if a.graph != nil {
+			_, _, data, err := ass.GetObjGraph(a.codeID, true)
+			o.Check(err == nil && bytes.Equal(data, a.graph), "rebuilt-state-misses-referenced-data", "sync finished but the object graph of account %x cannot be read: %v", a.id, err)
+		}
+		if a.api {
+			info, err := ass.APIInfo()
+			o.Check(err == nil && info != nil && info.Equal(c20APIInfo(a)), "rebuilt-state-misses-referenced-data", "sync finished but the API info of account %x cannot be read: %v", a.id, err)
+		}
+	}
 }
 
 func c20Bucket(n int) string {
